@@ -1,7 +1,9 @@
 package driver
 
 import (
+	"bufio"
 	"bytes"
+	"os"
 	"encoding/hex"
 	"encoding/json"
 	"errors"
@@ -64,6 +66,36 @@ type readerCfg struct {
 	EOFData   bool   `json:"eof_with_data"`
 	FailAt    int    `json:"fail_at"` // -1: plain EOF at the end of data
 	Err       string `json:"err"`
+	// Kind selects a standard-library reader instead of the metering reader:
+	// "bytes.Reader" (seekable), "bufio" (*bufio.Reader over the metering reader),
+	// "bytes.Buffer", "file" (*os.File on a temporary file), "" = metering reader.
+	Kind string `json:"kind"`
+}
+
+// mkReader builds the reader of the requested kind and a function reporting how many bytes
+// of the data the consumer has taken from it.
+func mkReader(data []byte, rc readerCfg) (io.Reader, *meterReader, func() int, func()) {
+	mr := &meterReader{data: data, cfg: rc}
+	switch rc.Kind {
+	case "bytes.Reader":
+		br := bytes.NewReader(data)
+		return br, mr, func() int { return len(data) - br.Len() }, func() {}
+	case "bytes.Buffer":
+		bb := bytes.NewBuffer(append([]byte{}, data...))
+		return bb, mr, func() int { return len(data) - bb.Len() }, func() {}
+	case "bufio":
+		bu := bufio.NewReaderSize(mr, 16)
+		return bu, mr, func() int { return mr.pos - bu.Buffered() }, func() {}
+	case "file":
+		f, err := os.CreateTemp("", "verif-stream-*")
+		if err != nil {
+			return mr, mr, func() int { return mr.pos }, func() {}
+		}
+		f.Write(data)
+		f.Seek(0, 0)
+		return f, mr, func() int { p, _ := f.Seek(0, 1); return int(p) }, func() { f.Close(); os.Remove(f.Name()) }
+	}
+	return mr, mr, func() int { return mr.pos }, func() {}
 }
 
 type meterReader struct {
@@ -236,7 +268,8 @@ func decodeOne(ti TypeInfo, data []byte, how string, rc readerCfg, noval bool) d
 	var rec bebop.Record
 	var err error
 	buf := exact(data)
-	mr := &meterReader{data: buf, cfg: rc}
+	rd, mr, posOf, cleanup := mkReader(buf, rc)
+	defer cleanup()
 	a0 := allocBytes()
 	res.Outcome, res.Site = core.Guard(func() {
 		switch how {
@@ -253,9 +286,9 @@ func decodeOne(ti TypeInfo, data []byte, how string, rc readerCfg, noval bool) d
 			m.MustUnmarshalBebop(buf)
 		case "decode":
 			rec = ti.New()
-			err = rec.DecodeBebop(mr)
+			err = rec.DecodeBebop(rd)
 		case "make":
-			rec, err = ti.Make(iohelp.NewErrorReader(mr))
+			rec, err = ti.Make(iohelp.NewErrorReader(rd))
 		case "frombytes":
 			rec, err = ti.FromBytes(buf)
 		case "mustfrombytes":
@@ -269,7 +302,7 @@ func decodeOne(ti TypeInfo, data []byte, how string, rc readerCfg, noval bool) d
 		}
 	})
 	res.Alloc = allocBytes() - a0
-	res.Pos, res.Reads, res.AfterEnd = mr.pos, mr.reads, mr.afterEnd
+	res.Pos, res.Reads, res.AfterEnd = posOf(), mr.reads, mr.afterEnd
 	if res.Outcome != "ok" {
 		return res
 	}
@@ -493,7 +526,8 @@ func opStream(it item) any {
 	data, _ := hex.DecodeString(it.Hex)
 	rc := it.Reader
 	rc.FailAt = -1
-	mr := &meterReader{data: exact(data), cfg: rc}
+	rd, mr, posOf, cleanup := mkReader(exact(data), rc)
+	defer cleanup()
 	type one struct {
 		decResult
 		PosAfter int `json:"pos_after"`
@@ -508,9 +542,9 @@ func opStream(it item) any {
 		rec := ti.New()
 		var err error
 		a0 := allocBytes()
-		r.Outcome, r.Site = core.Guard(func() { err = rec.DecodeBebop(mr) })
+		r.Outcome, r.Site = core.Guard(func() { err = rec.DecodeBebop(rd) })
 		r.Alloc = allocBytes() - a0
-		r.PosAfter, r.Reads, r.AfterEnd = mr.pos, mr.reads, mr.afterEnd
+		r.PosAfter, r.Reads, r.AfterEnd = posOf(), mr.reads, mr.afterEnd
 		if r.Outcome == "ok" {
 			if err != nil {
 				r.HasErr, r.Err = true, err.Error()
@@ -527,7 +561,7 @@ func opStream(it item) any {
 		}
 	}
 	// one more read must report the end of the stream without having been asked before
-	return map[string]any{"records": out, "final_pos": mr.pos, "len": len(data), "reads": mr.reads, "after_end": mr.afterEnd, "ended": mr.ended}
+	return map[string]any{"records": out, "final_pos": posOf(), "len": len(data), "reads": mr.reads, "after_end": mr.afterEnd, "ended": mr.ended}
 }
 
 func opConsts(it item) any {
